@@ -181,15 +181,15 @@ def header_item(bs, rate, nb, stored, version, backend='file', pre=None):
 def items_for(tier):
     items = []
     v025 = spec.encode_version(0, 2, 5, True)
-    lay3 = QUICK_3D if tier == 'quick' else valid_layouts_3d()
-    lay2 = QUICK_2D if tier == 'quick' else valid_layouts_2d()
+    lay3 = QUICK_3D if tier == 'quick' else thorough_layouts_3d()
+    lay2 = QUICK_2D if tier == 'quick' else thorough_layouts_2d()
     rot = [(2, 2, 1), (1, 2, 2), (2, 1, 2)]
     vol = ['read_inline', 'read_crossline', 'read_zslice', 'read_subvolume']
     for li, (bs, rate) in enumerate(lay3):
         if tier == 'quick':
             nbs = [(2, 2, 2)] if (bs[0] == 4 and bs[1] == 4) else [rot[li % 3]]
         else:
-            nbs = [(2, 2, 2), (3, 2, 1), (1, 3, 2), (2, 1, 3)]
+            nbs = [(2, 2, 2), (3, 2, 1)]
         for nb in nbs:
             for mname in vol:
                 if tier == 'quick' and bs[0] >= 128 and mname == 'read_zslice':
@@ -255,7 +255,7 @@ def mk_item(mname, bs, rate, nb, tier, opts=None):
     for k in ('preload', 'backend', 'warm', 'chunk_cache_size'):
         if k in opts:
             desc += '|%s=%s' % (k, opts[k])
-    it = Item(desc, lambda: readers.item_fn(mname, bs, rate, nb, 'in', o2), timeout_s=150 if tier == 'quick' else 900,
+    it = Item(desc, lambda: readers.item_fn(mname, bs, rate, nb, 'in', o2), timeout_s=150 if tier == 'quick' else 400,
               solver_ms=10000 if tier == 'quick' else 60000)
     it.meta = dict(kind='io', method=mname, bs=list(bs), rate=rate, nb=list(nb), opts=opts)
     return it
